@@ -22,6 +22,11 @@ CHECKS = {
    ref="DESIGN.md 3.3, 4 C04",
    note=TB + " Entry contracts: non-nil receivers, header parsed from the same bytes, IKESAKey nil or fully populated; Iv/Padding never assigned by non-test code.",
    tech="static analysis: SSA dataflow with wrap-aware linear forms, dominator facts, loop-variant templates"),
+ "C11": dict(cat="other",
+   text="Exhaustive over the finite registries (13 algorithms, 18 descriptors, 11 stringifiers): each descriptor's methods are evaluated by constant propagation and compared with an RFC reference table (identifier, key-length attribute, key/output length, hash, key-length guard); closure (stringifier of the descriptor's own id on its own attribute returns its own name) and no-foreign-mapping (every name-returning path pins the attribute to that name's values; identifier matches) are decided on the decision trees of the stringifiers; Decode/ToTransform shapes and the nil-descriptor guards of the SA constructors are structural rules. The wire round trip of the transform itself is C03/C05.",
+   ref="DESIGN.md 3.7, 4 C11",
+   note=TB + " Reference table transcribed from RFC 7296/3602/2403/2404/4868 and IANA; registries immutable after init (C18).",
+   tech="static analysis: constant propagation over registry initialisers and descriptor methods, decision-tree enumeration, dominance rules"),
  "C13": dict(cat="other",
    text="Decides the control structure that makes skipping sound: case constants and Type() methods of the 16 implementers are inverse bijections; the default arm continues exactly when bit 7 of octet 1 is clear (branch condition evaluated for all 256 octet values), with next-type/cursor updates structurally equal to the normal path and no append; the other edge returns a fresh error; the flags octet reaches no other branch and no payload decoder; progress and bounds of the walker by the E2 prover. Equality of decoded messages follows because the loop carries no other state; it is not separately derived.",
    ref="DESIGN.md 4 C13",
